@@ -32,7 +32,16 @@ META = {
     "intermediates of footprint() (buffer distance never erodes, densification step) observed by interposition; "
     "GCPGeoBox.pix2wld / wld2pix / extent / boundingbox / map_bounds / approx / resolution / to_crs composed with an "
     "exactly affine mapping (boundingbox contains the footprint for every pixel->world function; approx of exact "
-    "control points = B o A via C20's affine_from_pts_exact); scaled_down_geobox = zoom_out on non-empty geoboxes.",
+    "control points = B o A via C20's affine_from_pts_exact); scaled_down_geobox = zoom_out on non-empty geoboxes.  "
+    "Second increment: regions given in ANOTHER CRS (index, enclosing, project) are tied exactly — power-of-two parent grids "
+    "anchored at the CRS origin, the model receives pyproj's vertex images as a table (table_reproj_agrees) — with an "
+    "independent exact window oracle; rotate() composes by angle addition for all rotation entries and the exact "
+    "quarter turns of Affine.rotation form Z/4 (rotate_compose, rotate_quarter_add; k = -8..8 exhaustively, "
+    "rotate(a).rotate(b) vs rotate(a+b) on floats); crop undoes pad, pad undoes an inner crop, zoom_to(shape) = "
+    "zoom_out(k) when the shape divides and back again, gbox*T / T*gbox associate, commute with each other and with "
+    "views (proved and evaluated on the real objects); coordinates keys / order / resolutions by kind of CRS and the "
+    "geographic_extent dispatch (kind decided by pyproj independently); qr2sample contract (count, inside the padded "
+    "pixel rectangle, fixed sequence under offset, corners with edges) as an oracle.",
     "note": "Trusted: Lean kernel + {propext, Classical.choice, Quot.sound}; IEEE rounding is not modelled (theorems "
     "over exact rationals, doubles sampled with 1e-9 relative slack, shapes exact); square roots of the "
     "rotated-resolution decomposition enter as witnesses (numpy.linalg trusted); the GCP polynomial fit is an abstract "
@@ -48,7 +57,8 @@ META = {
     "instead of raising (outside the model, excluded from the generator).  NOT mirrored in the Lean model "
     "(inventory of the anchor files): geobox.py - from_bbox non-tight / from_geopolygon / _norm_anchor (C08), "
     "the shapely buffer and the reprojection inside footprint(buffer, other crs), geographic_extent / map_bounds WITH "
-    "reprojection, qr2sample (quasi-random constants are irrational), index / region objects that are neither numbers, "
+    "reprojection (only the dispatch on the kind of CRS is modelled), qr2sample arithmetic (float32 / irrational constants: "
+    "oracle only), Affine.rotation for angles other than quarter turns (cos / sin are inputs), index / region objects that are neither numbers, "
     "slices, sequences of those nor BoundingBox / Geometry / GeoBox (TypeError / AttributeError: index-kind table only), "
     "empty geometries on a singular geobox, snap_to, "
     "overlap_roi, |, &, geobox_union/intersection_conservative, pixel_translation, bounding_box_in_pixel_domain (C16), "
@@ -58,8 +68,8 @@ META = {
     "back-ends, affine_from_pts: abstract P, Q, B), GCPGeoBox.from_rio / map_bounds with reprojection, "
     "__eq__/__hash__, GCPMapping.__init__ point-set normalisation; types.py - xy_/yx_/ixy_/iyx_ constructors themselves (their "
     "results are the XY inputs of shapeNorm), Shape2d/XY arithmetic; math.py - decompose_rws factors R and W (only the scale diagonal), snap_affine, snap_scale, "
-    "split_translation, Poly2d evaluation, norm_xy, quasi_random_r2 (C20 or unmodelled); affine - rotation from "
-    "degrees (cos/sin are inputs), shear, the identity shortcut of itransform; boundary()'s float32 linspace rounding.",
+    "split_translation, Poly2d evaluation, norm_xy, quasi_random_r2 (C20 or unmodelled); affine - shear, the identity "
+    "shortcut of itransform; boundary()'s float32 linspace rounding.",
     "technique": "Lean 4 proof over hand model + differential correspondence with real code",
     "design_ref": "DESIGN.md §4 C02",
 }
@@ -2395,7 +2405,8 @@ def replay(R: Run, rec) -> int:
              ("zoom-to-int-longest-side", "zoom-to-int-shape"))
     cx.exact = False if key in ("bbox-misses-corner",) else cx.exact
     from .c02_glue import replay_glue
-    if op in ("shape-arg", "zoom-to-args", "getitem", "project", "footprint", "gcp-resolution") and replay_glue(R2, g, op, args, key):
+    if op in ("shape-arg", "zoom-to-args", "getitem", "project", "footprint", "gcp-resolution", "cross-crs", "rotate-compose", "qr2sample",
+              "cmeta", "laws") and replay_glue(R2, g, op, args, key):
         pass
     elif op == "region" and isinstance(args, dict) and "pts" in args:
         from odc.geo import geom as G
